@@ -525,7 +525,7 @@ def check_evaluate(ctx, F):
             if const_false or f.key == 'AclDecision::allow' or f.r.get('derive'):
                 continue
             ctx.bad('GUARD-C12d', f, 'AclDecision with allowed != const false is built outside AclDecision::allow', line=s.get('l'), detail='allowed-true-elsewhere')
-    ctx.floor('GUARD-C12d:ctor', n, 4, 'AclDecision constructions')
+    ctx.floor('GUARD-C12d:ctor', n, 2, 'AclDecision constructions')
     ctx.evaluations += n
     # validate_enforce_acl_context: Ok only when both options are Some
     v = ctx.need('GUARD-C12d', 'memvid::acl::validate_enforce_acl_context')
